@@ -495,6 +495,7 @@ pzgstrf_WorkInit(int_t n, int_t panel_size, int_t **iworkptr, doublecomplex **dw
     } /* else */
     if ( ! *dworkptr ) {
 	printf("malloc fails for local dworkptr[] ... dsize " IFMT "\n", dsize);
+	if ( whichspace == SYSTEM ) SUPERLU_FREE(*iworkptr);
 	return (isize + dsize + n);
     }
 
